@@ -208,6 +208,39 @@ def h_default_info(ctx, n, r0):
     ctx.claim('default_info_carries_nothing_over', len(Ya) == len(Yb) and
               all(a.shape == b.shape and bool(ctx.all_eq(a, b)) for a, b in zip(Ya, Yb)))
     ctx.claim('same_requests', len(orc2.batches) == len(orc3.batches))
+    # a reused (or default) dictionary that ended a run with some convergence value / budget
+    # does not influence the next run: same sweeps, stop reason and requests as with a fresh one
+    e = ctx.real('e')
+    ctx.assume(ctx.gt(e, 0))
+    for tag, kw in (('e', {'e': e, 'nswp': 2}), ('m', {'m': 3, 'nswp': 2})):
+        runs = []
+        for reuse in (True, False):
+            with stubs_installed(ctx, 'first'):          # (same accuracy outcomes acc_1, acc_2, ... in both runs)
+                o = Oracle(ctx, fresh=True, n=n)
+                o.values = orc1.values
+                if reuse:
+                    inf = {}
+                    teneva.cross(o, Y0, m=50, nswp=1, dr_min=0, dr_max=0, info=inf)
+                    o.batches.clear()
+                    left = inf['e']
+                else:
+                    o2 = Oracle(ctx, fresh=True, n=n)
+                    o2.values = orc1.values
+                    first = {}
+                    teneva.cross(o2, Y0, m=50, nswp=1, dr_min=0, dr_max=0, info=first)
+                    inf = {}
+                    left = first['e']
+                if tag == 'e' and not is_sym(ctx):
+                    # concrete twin: a threshold above the value the first run left behind (the
+                    # symbolic run covers every threshold; this one makes a stale value matter)
+                    kw = dict(kw, e=max(float(e), 10. * float(left)))
+                Yr = teneva.cross(o, Y0, dr_min=0, dr_max=0, info=inf, **kw)
+                runs.append((Yr, inf['nswp'], inf['stop'], inf['m'], [len(B) for B in o.batches]))
+        (Y1, s1, st1, m1, b1), (Y2, s2, st2, m2, b2) = runs
+        ctx.claim('reused_info_same_run_' + tag, s1 == s2 and st1 == st2 and m1 == m2 and b1 == b2 and
+                  all(a.shape == b.shape and bool(ctx.all_eq(a, b)) for a, b in zip(Y1, Y2)))
+        if tag == 'm':
+            ctx.claim('reused_info_budget_respected', sum(b1) <= 3)
 
 
 def instances(tier):
@@ -215,7 +248,8 @@ def instances(tier):
     quick = tier == 'quick'
     G = {'generic_divisors': True}
     cfg = [([2, 2], 1, (0, 0), 1), ([2, 2], 1, (1, 1), 1), ([2, 2, 2], 1, (0, 0), 1), ([2, 3], 2, (0, 0), 1),
-           ([2, 2], 1, (0, 0), 0), ([2, 2], 1, (1, 1), 0)]        # nswp = 0: no sweep at all
+           ([2, 2], 1, (0, 0), 0), ([2, 2], 1, (1, 1), 0),        # nswp = 0: no sweep at all
+           ([3, 3], 2, (2, 2), 1)]                                  # requested growth above the rows available (clamped)
     if not quick:
         cfg += [([2, 2], 1, (0, 1), 2), ([2, 2, 2], 1, (1, 1), 1), ([3, 3], 2, (0, 1), 1), ([2, 2, 2], 2, (0, 0), 2)]
     for n, r0, dr, nswp in cfg:
